@@ -191,4 +191,5 @@ def check(run):
     ck = c07.Checker(run, A)
     c07.check_gaussians(ck)
     c07.check_cacg(ck)
+    c07.check_watson(ck)          # cWMM is in the property's scope: the E-step density is the one whose normaliser the M-step inverts
     c07.close_terms(ck)
